@@ -41,6 +41,11 @@ BUILTIN_EXC = {
     "ArgumentError": "Exception",
     "ArgumentTypeError": "Exception",
     "OSError": "Exception",
+    "ConnectionError": "OSError",
+    "FileNotFoundError": "OSError",
+    "EOFError": "Exception",
+    "ImportError": "Exception",
+    "ModuleNotFoundError": "ImportError",
     "UserExc": "Exception",  # an arbitrary exception raised by user code (assumption U7)
 }
 
